@@ -3,12 +3,11 @@
 // Contracts for package filepathext (see /repo/zz_contracts_verif.go).
 package filepathext
 
+// Joining paths computes a string and changes nothing (verified since round 16; assumed before).
 //@ func SmartJoin
-//@   trusted
-//@   pure
+//@   pure                                                                                                      [C08]
 //@ func IsAbs
-//@   trusted
-//@   pure
+//@   pure                                                                                                      [C08]
 
 // ---- C08: a task dir that mentions one of the special directories ANYWHERE (in any template spelling) is left
 // alone when the dir of an include is joined in front of it
